@@ -110,6 +110,9 @@ def scenarios(tier, seed, drivers_=("tridonic", "hasseb", "luba", "sci")):
 
 
 def _run_any(sc):
+    if sc.get("sync") == 3:
+        from . import c16
+        return c16.atx_threads(sc)
     if sc.get("sync") == 2:
         from . import c16
         return c16.daliserver_session(sc)
